@@ -1258,3 +1258,14 @@ PROPS = {
         variants={'quick': ['plain'], 'thorough': ['plain', 'asanchecks']},
     ),
 }
+
+
+REAL_AXIOMS = ['ClassicalDedekindReals.sig_forall_dec', 'ClassicalDedekindReals.sig_not_dec',
+               'FunctionalExtensionality.functional_extensionality_dep']
+for _c in ('C04', 'C06', 'C07'):
+    PROPS[_c].update(
+        allowed_axioms=REAL_AXIOMS,
+        assumes=[f"the analysis-bridge theorems (Properties_{_c}_R.v: at the real instance the formal derivative / antiderivative "
+                 "difference coincide with Coquelicot's is_derive_n / is_RInt) depend on the standard library's real-number axioms "
+                 "ClassicalDedekindReals.sig_forall_dec, sig_not_dec and FunctionalExtensionality.functional_extensionality_dep; the "
+                 f"generic theorems of Properties_{_c}.v are closed under the global context"])
